@@ -81,7 +81,7 @@ CHECKS = {
    design="§4 C16"),
  "C07": dict(level="translation_validation", engine="E3 + E1 + concrete flavour comparison",
    technique="translation validation of the programs emitted under every solver flavour (sparse threshold 0/250/inf, direct solve vs plan, debug-assertion vs release) against one uniquely solvable RFC specification by finite-field SMT; Kani harnesses proving every arithmetic kernel equal to the same element-wise field operation; byte comparison of std/no_std builds, fresh/cached/explicit plans and debug/release through the public API",
-   text="Reduction to a common specification: each distinct encoder program for K' up to 26 (thorough 101 and 257) from 3 thresholds x {direct, plan} x {debug, release}, and decoder programs from scenarios at thresholds 0 and inf in both profiles, is certified for all data against the same RFC system, whose solution is unique - so the flavours agree; the decoder's verdict sequence is identical across 3 thresholds x 2 profiles; all 14 x86-64 kernels (one length each here, full claim in C11) equal the same polynomial-definition operation; std vs no_std builds, SourceBlockEncoder::new twice (second served by the plan cache), with_encoding_plan and Encoder::new, in debug and release, give byte-identical packets and decoded bytes for 7 block sizes.",
+   text="Reduction to a common specification: each distinct encoder program for K' up to 55 (thorough 101 and 257) from 3 thresholds x {direct, plan} x {debug, release}, and decoder programs from scenarios at thresholds 0 and inf in both profiles, is certified for all data against the same RFC system, whose solution is unique - so the flavours agree; the decoder's verdict sequence is identical across 3 thresholds x 2 profiles; all 14 x86-64 kernels (one length each here, full claim in C11) equal the same polynomial-definition operation; std vs no_std builds, SourceBlockEncoder::new twice (second served by the plan cache), with_encoding_plan and Encoder::new, in debug and release, give byte-identical packets and decoded bytes for 11 block sizes.",
    note="The optimiser, the no_std solver and the cache are compared on concrete runs only; concurrency (C17) is not applicable; NEON not compiled; trusted base as C06/C11.",
    design="§4 C07"),
 }
